@@ -16,6 +16,8 @@ Fields of an op are separated by single blanks (or TABs); trees use the canonica
   codec-gen  <class> <index>   canonical tree of `encode v_index`
   codec-val  <class> <index>   `v_index` itself
   codec-classes                names of the modelled classes
+  codec-wf <class>             `wf` when the schema is well-formed (covered by the generic theorems), else `not-wf`
+                               (a `…Code` schema modelling a recorded defect)
   codec-reset <class>          `ok`; marks the start of a class's block of cases (stateless otherwise)
 -/
 namespace Qx.Driver.CodecOps
@@ -312,6 +314,7 @@ def step (line : String) : Option String :=
   some <|
     if op == "codec-classes" then " ".intercalate (Classes.all.map (·.1))
     else if op == "codec-reset" then withClass cls fun _ => "ok"
+    else if op == "codec-wf" then withClass cls fun S => if decide S.WF then "wf" else "not-wf"
     else if op == "codec-names" then withClass cls fun S =>
       "N " ++ " ".intercalate ((Literals.names S).map hexOf) ++ " NS " ++ " ".intercalate ((Literals.nss S).map hexOf)
     else if op == "codec-tags" then withClass cls fun S =>
